@@ -8,7 +8,7 @@ import ast
 
 from ..program import AnalysisError, norm_stmt
 from ..interp import Interp, State
-from ..entries import make_signal, rec_array, R, DT
+from ..entries import make_signal, rec_array, R, DT, generalise_defaults
 from ..autoargs import auto_args
 from ..values import *  # noqa
 from ..values import _NOCONST as _NOCONST_
@@ -182,21 +182,6 @@ class Typestate(object):
 
     def _clear(self, st, q):
         st.facts = frozenset(f for f in st.facts if not (f[0] == "chg" and f[1] == q))
-
-
-def generalise_defaults(I, fi, bound, explicit=()):
-    """Option parameters take any value of their default's kind (None defaults: anything), not the default itself."""
-    for p in fi.defaults:
-        if p in explicit:
-            continue
-        dv = I.ev_default(fi, fi.defaults[p])
-        if dv.kind == K_NONE or dv.kind == K_TOP:
-            bound[p] = AV(kind=K_TOP, shape=None, origin=frozenset(["p:" + p]), tags=frozenset(["p:" + p]))
-        elif dv.kind == K_TUPLE:
-            bound[p] = AV(kind=K_TOP, shape=None, origin=frozenset(["p:" + p]), tags=frozenset(["p:" + p]))
-        else:
-            bound[p] = dv.replace(const=_NOCONST_, sym=None, expo=None, sign=S_ANY, tags=frozenset(["p:" + p]))
-    return bound
 
 
 def memo_key_rule(chk, P, ci, m):
